@@ -3,6 +3,7 @@ from engine.facts import AnalysisBroken, atomic_op, atomic_ops, has_acquire, has
 from engine.rules import (calls, calls_named, every_path_passes, last_member, is_call_to, Defs, resolve_cond_source, oname,
                           edges_where, dominated_by_edges, member_accesses, root_of, assignments, value_root, atomics_on, lockset)
 from rules.malloc_common import MALLOC_UNITS, errno_sets, var_of, nonnull_edges
+from engine.rules import expr_key, sym_bound
 
 UNITS = MALLOC_UNITS
 RI = 'rml::internal::'
@@ -171,44 +172,6 @@ def d3_backend(facts, rep):
 
 
 # ---------------------------------------------------------------------------------------------------------------
-def expr_key(fn, s):
-    """structural key of an expression, looking through reads and integral casts"""
-    s = fn.strip(s)
-    n = fn.n(s)
-    k = n.get('k')
-    if k == 'var':
-        return ('g', n['glob']) if 'glob' in n else ('v', n['v'])
-    if k == 'enum':
-        return ('g', n.get('q'))
-    if k == 'lit' and n.get('cv') is not None:
-        return ('c', int(n['cv']))
-    if k == 'binop':
-        return ('b', n['op'], expr_key(fn, n['l']), expr_key(fn, n['r']))
-    if k == 'member':
-        return ('m', n['n'], expr_key(fn, n['base']) if n.get('base', -1) >= 0 else None)
-    return ('?', s)
-
-
-def sym_bound(fn, s):
-    """(symbol key or None, integer offset) for `SYM`, `SYM - c`, `SYM + c` or a constant"""
-    c = fn.cv(s)
-    if c is not None:          # compile-time constant: compare numerically
-        return None, int(c)
-    s = fn.strip(s)
-    n = fn.n(s)
-    if n.get('k') == 'binop' and n['op'] in ('+', '-'):
-        c = fn.cv(n['r'])
-        if c is not None and fn.cv(n['l']) is None:
-            sym, off = sym_bound(fn, n['l'])
-            return sym, off + (int(c) if n['op'] == '+' else -int(c))
-    if n.get('k') in ('var', 'enum'):
-        return expr_key(fn, s), 0
-    c = fn.cv(s)
-    if c is not None:
-        return None, int(c)
-    return expr_key(fn, s), 0
-
-
 def upper_bound_edges(fn, ekey, sym, limit):
     """edges on which  E <= sym + limit  is known (E identified by its structural key)"""
     def pred(a, truth):
